@@ -1,6 +1,6 @@
 /* C01: src/mtbl_dump.c dump() (real): with key/value prefix and minimum-length options it prints exactly the matching
  * entries, in iteration order.  Reader/iterator are stubs yielding <= 3 symbolic entries; output functions count lines. */
-#include "/repo/src/mtbl_dump.c"
+#include "src/mtbl_dump.c"
 #include "spec/ghost.h"
 #define NE 3
 static uint8_t EK[NE * 2], EV[NE * 2]; static size_t ELK[NE], ELV[NE]; static unsigned vg_n, vg_pos;
